@@ -297,7 +297,51 @@ def bounded_refute(ob, timeout_ms=5000, bounds=(1, 2, 3)):
     return None, None
 
 
+_incl_cache = {}
+
+
+def language_inclusion(ob, timeout_ms=10000):
+    """claim  InRe(t, B)  with hypotheses  InRe(t, A1), InRe(t, A2), ...:  decided as the pure regular-language question
+    A1 & A2 & ... subset-of B on a fresh string (z3 answers these in milliseconds; inside the full path condition the same
+    question can time out).  Returns True if the claim is established this way."""
+    c = ob.claim
+    while z3.is_app(c) and c.decl().kind() == z3.Z3_OP_IMPLIES and z3.is_true(z3.simplify(c.arg(0))):
+        c = c.arg(1)
+    if not (z3.is_app(c) and c.decl().kind() == z3.Z3_OP_SEQ_IN_RE):
+        return False
+    t, B = c.arg(0), c.arg(1)
+    As = []
+
+    def scan(e):
+        if z3.is_and(e):
+            for ch in e.children():
+                scan(ch)
+        elif z3.is_app(e) and e.decl().kind() == z3.Z3_OP_SEQ_IN_RE and e.arg(0).eq(t):
+            As.append(e.arg(1))
+    for h in ob.hyps:
+        scan(h)
+    if not As:
+        return False
+    key = (tuple(a.sexpr() for a in As), B.sexpr())
+    if key not in _incl_cache:
+        x = z3.String("incl_x")
+        s = z3.Solver()
+        s.set("timeout", timeout_ms)
+        for a in As:
+            s.add(z3.InRe(x, a))
+        s.add(z3.Not(z3.InRe(x, B)))
+        _incl_cache[key] = (s.check() == z3.unsat)
+    return _incl_cache[key]
+
+
 def discharge(ob, timeout_ms=10000, use_cvc5=True, both=False):
+    t_in = time.time()
+    try:
+        if language_inclusion(ob, timeout_ms):
+            ob.status, ob.backend, ob.seconds = "discharged", "z3 (regular-language inclusion)", time.time() - t_in
+            return ob
+    except z3.Z3Exception:
+        pass
     neg = z3.Not(ob.claim)
     r, s, dt = check_z3(ob.hyps, neg, timeout_ms)
     ob.seconds = dt
